@@ -392,9 +392,15 @@ def discovery_family(W):
                 steps = [browse("b1", first, 1), browse("b2", other, 2), app("b1", first), app("b2", other),
                          {"op": "check", "b": "b2", "f": other, "kind": "logout", "cookie": "jar"}, {"op": "check", "b": "b1", "f": first, "kind": "logout", "cookie": "jar"}]
                 res.append({"id": "discovery/two/%s/%s-first/%s" % (st, first, "inherit" if inherit else "own"), "cfg": {"filters": [f1, f2]}, "steps": steps, "tags": ["discovery"]})
-        for doc in ("pkcePlainOnly", "noMethods"):
+        for doc in ("pkcePlainOnly", "noMethods", "plainFirst", "scopesPartial"):
             f = dict(F1, store=st, discovery=True, discoveryDoc=doc)
+            if doc == "scopesPartial":
+                f["scopes"] = ["email", "profile"]
             res.append({"id": "discovery/%s/%s" % (doc, st), "cfg": {"filters": [f]}, "steps": [browse("b1", "f1", 1), app("b1", "f1")], "tags": ["discovery"]})
+        # a logout path configured with a trailing slash
+        f = dict(F1, store=st, logoutSlash=True)
+        res.append({"id": "logoutSlash/%s" % st, "cfg": {"filters": [f]},
+                    "steps": [browse("b1", "f1", 1), app("b1", "f1"), {"op": "check", "b": "b1", "f": "f1", "kind": "logout", "cookie": "jar"}, app("b1", "f1", cookie="sid:1")], "tags": ["discovery"]})
         # a discovered provider AND an explicitly configured end-session URI: the configured one is the one the logout answer names
         f = dict(F1, store=st, discovery=True, logoutRedirect="https://sso.example/configured-logout?src=app")
         res.append({"id": "discovery/configuredLogout/%s" % st, "cfg": {"filters": [f]},
